@@ -4,6 +4,9 @@
 // file, compiled only under the build tag "verif").
 package main
 
+// Every function under contract in this package also serves the properties that depend on the whole package.
+//@ package-props C01
+
 // (the cache and manager operations are seen through the client views in /verif/contracts/stubs/collector_view.gvc)
 // A configured target is cacheKnows with the cache before the target manager starts
 // delivering its updates (the cache refuses updates for names it does not know), and a
